@@ -144,7 +144,8 @@ def gen_c12(rng: random.Random, tier: str) -> Dict[str, Any]:
                 if rng.random() < 0.5:
                     delays.append([e, "step", k, round(rng.choice([0.001, 0.01, 0.1]) * (1 + rng.random()), 4)])
     return {"engine": "vecsim", "prop": "C12", "spec": spec, "n_envs": n, "copy": rng.random() < 0.6, "delays": delays, "faults": [],
-            "sched_seed": rng.getrandbits(31), "target": rng.choice(["vec", "vec", "vec", "wrapper"]), "ops": ops}
+            "sched_seed": rng.getrandbits(31), "target": rng.choice(["vec", "vec", "vec", "wrapper"]), "ops": ops,
+            "act_key_order": rng.choice(["natural", "natural", "reversed"])}
 
 
 CALLS = ["reset_async", "reset_wait", "step_async", "step_wait", "call_async", "call_wait", "set_attr", "get_attr", "close"]
@@ -159,7 +160,8 @@ def gen_c13(rng: random.Random, tier: str, fault_override: Optional[List] = None
     misuse_rate = rng.choice([0.0, 0.15, 0.35])
     while len(ops) < length:
         if rng.random() < misuse_rate:
-            ops.append(_mk_op(rng, rng.choice(CALLS[:-1])))
+            # the synchronous wrappers (reset / step / call) are only exercised as misuse: issued while another call is pending
+            ops.append(_mk_op(rng, rng.choice(CALLS[:-1] + (["reset", "step", "call"] if pending is not None else []))))
             continue
         if pending is None:
             k = rng.choice(["reset", "step", "step", "call", "set_attr", "get_attr"])
@@ -440,7 +442,9 @@ def _run_c12(ctx, case, sched, world, patched, loc) -> None:
                 obs = got[0]
             else:
                 actions = _actions(case["spec"], ref.agents, n, op["seed"])
-                got = venv.step(actions)
+                # a dict is addressed by key: the order in which the caller happened to insert the agents must not matter
+                order = list(ref.agents)[::-1] if case.get("act_key_order") == "reversed" else list(ref.agents)
+                got = venv.step({a: actions[a] for a in order})
                 n_steps += 1
                 ctx.log("client", "step", {"seed": op["seed"]})
                 if not _check_step(ctx, case, venv, ref, got, actions, loc):
@@ -551,8 +555,17 @@ def _run_c13(ctx, case, sched, world, patched, loc) -> None:
                 continue
             fn = {"reset_async": lambda: venv.reset_async(), "reset_wait": lambda: venv.reset_wait(), "step_async": lambda: venv.step_async([[0] * len(ref.agents)] * n),
                   "step_wait": lambda: venv.step_wait(), "call_async": lambda: venv.call_async("probe_call"), "call_wait": lambda: venv.call_wait(),
-                  "set_attr": lambda: venv.set_attr("fragile", 1), "get_attr": lambda: venv.get_attr("fragile")}[name]
+                  "set_attr": lambda: venv.set_attr("fragile", 1), "get_attr": lambda: venv.get_attr("fragile"),
+                  "reset": lambda: venv.reset(), "step": lambda: venv.step(_actions(case["spec"], ref.agents, n, 0)), "call": lambda: venv.call("probe_call", 1)}[name]
             expect_misuse(fn, ClosedEnvironmentError, f"{name} after close()")
+            continue
+        if name in ("reset", "step", "call"):
+            if state == "default":
+                ctx.probe("sync_wrapper_in_default_state_skipped")
+                continue
+            fn = {"reset": lambda: venv.reset(seed=3), "step": lambda: venv.step(_actions(case["spec"], ref.agents, n, 0)), "call": lambda: venv.call("probe_call", 1)}[name]
+            # rejected, and the pending call must still be there afterwards (its wait is part of the generated sequence)
+            expect_misuse(fn, AlreadyPendingCallError, f"synchronous {name}() while a {state} call is pending")
             continue
         if name == "close":
             okc = _do_close(ctx, case, sched, world, venv, {"terminate": op.get("terminate", False), "timeout": op.get("timeout")}, loc, pending=state != "default")
